@@ -335,8 +335,11 @@ class Classes:
         return any(isinstance(x, ast.Return) and x.value is not None and ast.unparse(x.value) == "False" for x in stmts) and \
             all(is_log(x) or isinstance(x, ast.Return) for x in stmts)
 
-    # -- apply_timestep chain reaches the base class
+    # -- apply_timestep chain reaches the base class ON EVERY PATH
     def ticks_reach_base(self, name: str, base: str) -> bool:
+        """every `apply_timestep` between the class and `base` calls `super().apply_timestep(…)` on every path through its body
+        (an early `return` in front of the call — or a call that only one branch makes — freezes the restart / install / fix
+        countdown of that class in exactly the states the guard tests)"""
         cur = None
         while True:
             r = self.resolve(name, "apply_timestep", cur)
@@ -345,9 +348,62 @@ class Classes:
             owner, fn = r
             if owner == base:
                 return True
-            if not any(isinstance(n, ast.Call) and ast.unparse(n.func) == "super().apply_timestep" for n in ast.walk(fn)):
+            if super_call_on_every_path(fn, "apply_timestep") != "yes":
                 return False
             cur = owner
+
+
+def _is_super_call(st: ast.stmt, meth: str) -> bool:
+    return isinstance(st, (ast.Expr, ast.Return)) and st.value is not None and isinstance(st.value, ast.Call) \
+        and ast.unparse(st.value.func) == f"super().{meth}"
+
+
+def _path_scan(stmts: List[ast.stmt], meth: str) -> str:
+    """'yes' = every path through `stmts` has made the super call when it leaves them; 'no' = some path leaves the FUNCTION
+    (return / raise) without it, or the call sits where it may be skipped (loop, try); 'falls' = paths fall off the end
+    of `stmts` without the call and without leaving the function"""
+    for i, st in enumerate(stmts):
+        if _is_super_call(st, meth):
+            return "yes"
+        if isinstance(st, (ast.Return, ast.Raise)):
+            return "no"
+        if isinstance(st, ast.If):
+            a, b = _path_scan(st.body, meth), _path_scan(st.orelse, meth)
+            if a == "no" or b == "no":
+                return "no"
+            if a == "yes" and b == "yes":
+                return "yes"
+            continue  # at least one branch falls through: the rest of the list has to make the call
+        if isinstance(st, ast.With):
+            r = _path_scan(st.body, meth)
+            if r != "falls":
+                return r
+            continue
+        if isinstance(st, (ast.For, ast.While, ast.Try, ast.Match)) or (hasattr(ast, "TryStar") and isinstance(st, getattr(ast, "TryStar"))):
+            # a call inside a loop / try may be skipped; an exit inside leaves without the call
+            if any(isinstance(x, (ast.Return, ast.Raise)) for x in ast.walk(st)):
+                return "no"
+            continue
+    return "falls"
+
+
+def super_call_on_every_path(fn: ast.FunctionDef, meth: str) -> str:
+    r = _path_scan(body_no_doc(fn), meth)
+    return "yes" if r == "yes" else "no"
+
+
+def tick_overrides_skipping_super() -> List[str]:
+    """`Class.apply_timestep` definitions below Software (whole simulator/system tree, abstract bases included) in which
+    `super().apply_timestep(…)` is not reached on every path"""
+    cs = Classes()
+    bad = []
+    for name in sorted(cs.defs):
+        if name in ("Software",) or "Software" not in cs.mro(name):
+            continue
+        for st in cs.defs[name].body:
+            if isinstance(st, ast.FunctionDef) and st.name == "apply_timestep" and super_call_on_every_path(st, "apply_timestep") != "yes":
+                bad.append(f"{name}.apply_timestep")
+    return bad
 
 
 def port_lookup() -> Dict[str, int]:
@@ -673,6 +729,8 @@ def emit() -> str:
     L.append("def classes : List (String × String × String × Bool × Nat × Nat × String × Bool × Bool × Bool × Bool × Bool) := [\n  " + ",\n  ".join(
         f'("{r["cls"]}", "{r["name"]}", "{r["disc"] or ""}", {str(r["kind"] == "application").lower()}, {r["port"]}, {r["proto"]}, '
         f'"{r["guard"]}", {str(r["ctor_runs"]).lower()}, {str(r["ticks"]).lower()}, {str(r["run_overrides_ok"]).lower()}, {str(r["base_routes"]).lower()}, {str(r["generic_execute"]).lower()})' for r in tbl) + "]")
+    L.append("/-- `apply_timestep` overrides below `Software` that do not call `super().apply_timestep(…)` on every path -/")
+    L.append("def tickOverridesSkippingSuper : List String := [" + ", ".join(f'"{x}"' for x in tick_overrides_skipping_super()) + "]")
     L.append("/-- subclasses that override a lifecycle method with something other than set-up around `super()` -/")
     L.append("def lifecycleOverrides : List (String × String) := [" +
              ", ".join(f'("{r["cls"]}", "{m}")' for r in tbl for m in r["overrides"]) + "]")
